@@ -38,7 +38,7 @@ def gen_case(rng: random.Random, tier: str) -> dict:
     cats = rng.sample(["A", "B", "S"], rng.randint(1, 2))
     nums = rng.sample(["x", "y", "p"], rng.randint(1, 3))
     arrow = rng.random() < 0.5
-    frame = gen.rand_frame(rng, n, cats=cats, nums=nums, max_levels=3)
+    frame = gen.rand_frame(rng, n, cats=cats, nums=nums, max_levels=3, index=rng.choice(["default", "default", "labels", "ints", "perm"]))
     for name, c in frame["cols"]:
         if c["kind"] == "cat" and arrow:
             c["categories"] = sorted(c["categories"])
